@@ -101,6 +101,37 @@ theorem least_none_iff (vs : List Rat) : Spec.least vs = none ↔ vs = [] := by
   · intro h; have := least_spec vs; rw [h] at this; exact this
   · intro h; subst h; rfl
 
+/-- **rolling minimum ≤ rolling maximum, null together**: at every position the two outputs are
+either both null or both values `a ≤ b` -/
+theorem vmin_le_vmax (sh : Shape) (xs : List (Option Rat)) (w : Nat) (mp : Option Nat) (hw : 1 ≤ w)
+    (i : Nat) (hi : i < xs.length) :
+    ((tsVmin sh xs w mp)[i]? = some .null ∧ (tsVmax sh xs w mp)[i]? = some .null) ∨
+    ∃ a b, (tsVmin sh xs w mp)[i]? = some (.val a) ∧ (tsVmax sh xs w mp)[i]? = some (.val b) ∧
+      a ≤ b := by
+  rw [vmin_exact sh xs w mp hw, vmax_exact sh xs w mp hw]
+  simp only [List.getElem?_map, List.getElem?_range hi, Option.map_some]
+  unfold Spec.tsMin Spec.tsMax Spec.masked
+  split
+  · cases hl : Spec.least (Spec.vals (window xs i w)) with
+    | none =>
+      have he := (least_none_iff _).1 hl
+      left
+      simp [he, Spec.ofOpt, Spec.greatest]
+    | some a =>
+      have ha := (least_is_min _ a).1 hl
+      cases hg : Spec.greatest (Spec.vals (window xs i w)) with
+      | none =>
+        exfalso
+        have : Spec.vals (window xs i w) ≠ [] := List.ne_nil_of_mem ha.1
+        have hs := greatest_spec (Spec.vals (window xs i w))
+        rw [hg] at hs
+        exact this hs
+      | some b =>
+        have hb := (greatest_is_max _ b).1 hg
+        right
+        exact ⟨a, b, by simp [Spec.ofOpt], by simp [Spec.ofOpt], ha.2 b hb.1⟩
+  · left; simp
+
 /-- `Spec.lastPos m l` is the 1-based offset of the most recent position holding `m` (ties
 resolve to the newest element) -/
 theorem lastPos_is_most_recent (m : Rat) (L : List (Option Rat)) (p : Nat) (hp : p < L.length)
